@@ -35,6 +35,7 @@ typedef struct {
 	long add_step;
 	int sent_complete, valid_reply_arrived, id_reply_arrived, stale_id_reply_arrived, returned;
 	int answered;                   /* server side: a valid reply was queued */
+	int madeup_reply_first;         /* an authentic reply with this id that the server made up (chains for another hash) arrived before any honest one */
 	int is_conf;                    /* a configuration request (no id, no cache slot) */
 	long conf_seen_at_add;          /* authentic configuration payloads that had arrived when it was accepted */
 } sreq_t;
@@ -43,6 +44,7 @@ typedef struct {
 	size_t end_off;                 /* offset in conn->in where this reply ends */
 	int conn_seq;
 	int kind;                       /* 0 valid, 1 bad data (bad MAC), 2 status error / error PDU, 3 push config, 4 unknown/stale/duplicate id */
+	int fabricated;                 /* kind 4: not a repeated reply to an earlier request but an authentic reply the server made up for an id */
 	uint64_t id;
 	unsigned seed;                  /* whose hash the chains are for */
 	int arrived;
@@ -176,12 +178,14 @@ static void world_close(void) {
 
 static int outstanding(void) { return W.nreq - W.nreturned; }
 
+static int g_fabricated;
 static void queue_reply2(sn_conn *c, const vbuf *b, int kind, uint64_t id, unsigned seed);
 static void queue_reply(sn_conn *c, const vbuf *b, int kind, uint64_t id) { queue_reply2(c, b, kind, id, 0); }
 static void queue_reply2(sn_conn *c, const vbuf *b, int kind, uint64_t id, unsigned seed) {
 	if (W.nreply >= MAXREPLY) vf_harness_error("too many replies");
 	sn_server_write(c, b->p, b->n);
 	W.reply[W.nreply].end_off = c->in.n; W.reply[W.nreply].conn_seq = c->seq; W.reply[W.nreply].kind = kind; W.reply[W.nreply].id = id; W.reply[W.nreply].seed = seed; W.reply[W.nreply].arrived = 0;
+	W.reply[W.nreply].fabricated = g_fabricated; g_fabricated = 0;
 	W.nreply++;
 }
 
@@ -214,7 +218,7 @@ static void note_arrivals(void) {
 		rp->arrived = 1;
 		switch (rp->kind) {
 			case 0: for (j = 0; j < W.nreq; j++) if (W.req[j].id == rp->id && W.req[j].sent_complete && !W.req[j].returned) { W.req[j].id_reply_arrived = 1; if (W.req[j].seed == rp->seed) W.req[j].valid_reply_arrived = 1; } break;
-			case 4: for (j = 0; j < W.nreq; j++) if (W.req[j].id == rp->id && W.req[j].sent_complete && !W.req[j].returned) { W.req[j].id_reply_arrived = 1; if (W.req[j].seed == rp->seed) W.req[j].valid_reply_arrived = 1; else if (!W.req[j].valid_reply_arrived) W.req[j].stale_id_reply_arrived = 1; } break;
+			case 4: for (j = 0; j < W.nreq; j++) if (W.req[j].id == rp->id && W.req[j].sent_complete && !W.req[j].returned) { W.req[j].id_reply_arrived = 1; if (W.req[j].seed == rp->seed) W.req[j].valid_reply_arrived = 1; else if (!W.req[j].valid_reply_arrived && !rp->fabricated) W.req[j].stale_id_reply_arrived = 1; else if (!W.req[j].valid_reply_arrived) W.req[j].madeup_reply_first = 1; } break;
 			case 1: W.cause_baddata = (int)W.step + 1; break;
 			case 2: W.cause_status = (int)W.step + 1; break;
 			case 3: {
@@ -264,6 +268,7 @@ static void check_returned(KSI_AsyncHandle *h) {
 			/* an authentic reply with this id but chains for another hash yields no signature: allowed; an honest reply must */
 			vf_outcome("returned:response-without-signature");
 			if (W.req[idx].valid_reply_arrived && W.req[idx].stale_id_reply_arrived) { HF("completed-with-stale-reply", "request #%d (id %llx): an authentic reply from an earlier occupant of the same id (the id generation counter has wrapped) arrived before the honest reply and completed the request; getSignature fails 0x%x and the honest reply is discarded", idx, (unsigned long long)W.req[idx].id, r); W.violated = 1; }
+			else if (W.req[idx].valid_reply_arrived && W.req[idx].madeup_reply_first) vf_outcome("returned:response-of-made-up-reply");   /* the first authentic reply with its id completes the request */
 			else if (W.req[idx].valid_reply_arrived) { HF("honest-reply-no-signature", "request #%d: an honest reply arrived but getSignature failed 0x%x", idx, r); W.violated = 1; }
 		} else {
 			KSI_DataHash *dh = NULL;
@@ -424,6 +429,10 @@ static int apply_inner(int ev) {
 			fake.seed = oldest >= 0 ? W.req[oldest].seed : 555;
 			vb_init(&b);
 			build_reply(&b, &fake, id, 0, 0);
+			/* a reply bearing the id of the request returned last is a (late) reply to that request; one with altered generation
+			 * bits answers no request that was ever made: an authentic but made-up reply. If a later request happens to get that id,
+			 * the statement lets it complete with this reply (no signature can be derived from it) */
+			g_fabricated = !(ev == EV_REPLY_STALE && oldest < 0);
 			queue_reply2(c, &b, 4, id, fake.seed);
 			vb_free(&b);
 			return 1;
@@ -523,7 +532,7 @@ static uint64_t state_key(void) {
 	for (k = 0; k < W.nreq; k++) {
 		sreq_t *r = &W.req[k];
 		if (r->returned) continue;
-		h = mix(h, (uint64_t)(r->sent_complete | r->valid_reply_arrived << 1 | r->answered << 2 | r->id_reply_arrived << 3 | r->stale_id_reply_arrived << 4 | r->is_conf << 5 | (r->is_conf && W.conf_arrived > r->conf_seen_at_add) << 6)); h = mix(h, r->id); h = mix(h, age(r->add_time, maxto)); h = mix(h, r->sent_complete ? age(r->sent_time, maxto) : 77);
+		h = mix(h, (uint64_t)(r->sent_complete | r->valid_reply_arrived << 1 | r->answered << 2 | r->id_reply_arrived << 3 | r->stale_id_reply_arrived << 4 | r->madeup_reply_first << 7 | r->is_conf << 5 | (r->is_conf && W.conf_arrived > r->conf_seen_at_add) << 6)); h = mix(h, r->id); h = mix(h, age(r->add_time, maxto)); h = mix(h, r->sent_complete ? age(r->sent_time, maxto) : 77);
 	}
 	for (k = 0; k < W.nreply; k++) if (!W.reply[k].arrived) { h = mix(h, (uint64_t)W.reply[k].kind); h = mix(h, W.reply[k].id); }
 	return h;
